@@ -18,8 +18,10 @@ import Mathlib.LinearAlgebra.Lagrange
 -- govc-spec lagSpec: lagSpec(a seq[int], i int, k int) F = ite(k <= 0, fint(1), ite(a[k-1] == i, lagSpec(a, i, k-1), fmul(lagSpec(a, i, k-1), lterm(a[k-1], i))))
 -- govc-spec prodAll: prodAll(b seq[F], m int) F = ite(m <= 0, fint(1), fmul(prodAll(b, m-1), b[m-1]))
 -- govc-spec recF: recF(s seq[F], a seq[int], n int, k int) F = ite(k <= 0, fint(0), fadd(recF(s, a, n, k-1), fmul(s[a[k-1]-1], lagSpec(a, a[k-1], n))))
--- govc-spec aggG1: aggG1(sig seq[G1], a seq[int], n int, z G1, k int) G1 = ite(k <= 0, z, g1add(aggG1(sig, a, n, z, k-1), g1mul(sig[k-1], lagSpec(a, a[k-1], n))))
+-- govc-spec aggG1@bls: aggG1(sig seq[G1], a seq[int], n int, z G1, k int) G1 = ite(k <= 0, z, g1add(aggG1(sig, a, n, z, k-1), g1mul(sig[k-1], lagSpec(a, a[k-1], n))))
 -- govc-spec aggG2: aggG2(pk seq[G2], a seq[int], n int, z G2, k int) G2 = ite(k <= 0, z, g2add(aggG2(pk, a, n, z, k-1), g2mul(pk[a[k-1]-1], lagSpec(a, a[k-1], n))))
+-- govc-spec sumG1@ps: sumG1(p seq[G1], s seq[F], z G1, k int) G1 = ite(k <= 0, z, g1add(sumG1(p, s, z, k-1), g1mul(p[k-1], s[k-1])))
+-- govc-spec sumG2@ps: sumG2(p seq[G2], s seq[F], z G2, k int) G2 = ite(k <= 0, z, g2add(sumG2(p, s, z, k-1), g2mul(p[k-1], s[k-1])))
 -- Correspondence: polyEval ~ TSS.polyEval; lterm ~ TSS.lterm; lagSpec ~ TSS.lagSpec; prodAll(b, m) is the running product that
 -- the code accumulates (lagrangeCoefficient proves prodAll(factors) == lagSpec); recF ~ TSS.recF with idx j = a[j]-1; aggG1 / aggG2
 -- are recF in the exponent (z + sum of lagSpec * point): the transfer from the field to the groups uses only that g2mul / g1mul
@@ -250,6 +252,69 @@ theorem threshold_signature_verifies (e : G2 →ₗ[F] G1 →ₗ[F] T) (g2 : G2)
 
 end Signing
 
+/-! ### Blind signing by one signer (C08, single-signer clause)
+
+`sumG` transliterates the spec functions sumG1 / sumG2 (z + sum over i < k of s[i] * p[i]). The hypotheses of
+`unblind_correct` are the postconditions proved on the Go code: `encrypt` (a[i] = r[i] * g, b[i] = m[i] * h + r[i] * u),
+`Blind` (u = z * g, the same h and z go into the secret), `SignBlindSignature` (A = sumG1(a, ys, g - g, n),
+B = sumG1(b, ys, x * h, n)), `UnBlind` (hPrime = B + (-z) * A, accepted iff e(g2inv, hPrime) * e(sumG2(Y, m, X, n), h) = 1),
+`LocalKeyGen` (X = x * g2, Y[i] = ys[i] * g2) and `neg` (g2inv = (G - G) - g2). -/
+
+section BlindSigning
+
+variable {G1 G2 T : Type*} [AddCommGroup G1] [Module F G1] [AddCommGroup G2] [Module F G2] [AddCommGroup T] [Module F T]
+
+/-- spec func sumG1 / sumG2 -/
+def sumG {G : Type*} [AddCommGroup G] [Module F G] (p : ℕ → G) (s : ℕ → F) (z : G) : ℕ → G
+  | 0 => z
+  | k + 1 => sumG p s z k + s k • p k
+
+theorem sumG_eq_sum {G : Type*} [AddCommGroup G] [Module F G] (p : ℕ → G) (s : ℕ → F) (z : G) (k : ℕ) :
+    sumG p s z k = z + ∑ j ∈ range k, s j • p j := by
+  induction k with
+  | zero => simp [sumG]
+  | succ k ih => simp [sumG, ih, Finset.sum_range_succ, add_assoc]
+
+/-- what the client obtains by unblinding the signer's answer: (x + sum of ys[i] * m[i]) * h -/
+theorem unblind_value (g h u : G1) (x z : F) (ys ms rs : ℕ → F) (n : ℕ) (a b : ℕ → G1)
+    (hu : u = z • g) (ha : ∀ i, i < n → a i = rs i • g) (hb : ∀ i, i < n → b i = ms i • h + rs i • u) :
+    sumG b ys (x • h) n + (-z) • sumG a ys (g - g) n = (x + ∑ i ∈ range n, ys i * ms i) • h := by
+  rw [sumG_eq_sum, sumG_eq_sum, sub_self, zero_add]
+  have hA : ∑ j ∈ range n, ys j • a j = (∑ j ∈ range n, ys j * rs j) • g := by
+    rw [Finset.sum_smul]
+    refine Finset.sum_congr rfl (fun j hj => ?_)
+    rw [ha j (Finset.mem_range.mp hj), smul_smul]
+  have hB : ∑ j ∈ range n, ys j • b j
+      = (∑ j ∈ range n, ys j * ms j) • h + (z * ∑ j ∈ range n, ys j * rs j) • g := by
+    rw [Finset.sum_smul, Finset.mul_sum, Finset.sum_smul, ← Finset.sum_add_distrib]
+    refine Finset.sum_congr rfl (fun j hj => ?_)
+    rw [hb j (Finset.mem_range.mp hj), hu, smul_add, smul_smul, smul_smul, smul_smul]
+    congr 2
+    ring
+  rw [hA, hB, add_smul, smul_smul]
+  have : (-z * ∑ j ∈ range n, ys j * rs j) • g = -((z * ∑ j ∈ range n, ys j * rs j) • g) := by
+    rw [neg_mul, neg_smul]
+  rw [this]
+  abel
+
+/-- **A request built by `Blind`, signed by `SignBlindSignature` with the key (x, ys) and unblinded with the client's secret
+is accepted by `UnBlind` under the signer's public key (X, Y) = (x * g2, ys[i] * g2)**, for every message vector, every
+randomness, every n. -/
+theorem unblind_correct (e : G2 →ₗ[F] G1 →ₗ[F] T) (g h u : G1) (g2 gen2 : G2) (x z : F) (ys ms rs : ℕ → F) (n : ℕ)
+    (a b : ℕ → G1) (Y : ℕ → G2)
+    (hu : u = z • g) (ha : ∀ i, i < n → a i = rs i • g) (hb : ∀ i, i < n → b i = ms i • h + rs i • u)
+    (hY : ∀ i, i < n → Y i = ys i • g2) :
+    e ((gen2 - gen2) - g2) (sumG b ys (x • h) n + (-z) • sumG a ys (g - g) n) + e (sumG Y ms (x • g2) n) h = 0 := by
+  rw [unblind_value g h u x z ys ms rs n a b hu ha hb, sumG_eq_sum]
+  have hE : ∑ j ∈ range n, ms j • Y j = (∑ j ∈ range n, ys j * ms j) • g2 := by
+    rw [Finset.sum_smul]
+    refine Finset.sum_congr rfl (fun j hj => ?_)
+    rw [hY j (Finset.mem_range.mp hj), smul_smul, mul_comm]
+  rw [hE, ← add_smul]
+  simp [sub_self, map_neg, map_smul]
+
+end BlindSigning
+
 end TSS
 
 #print axioms TSS.dealt_secret_reconstructs
@@ -258,3 +323,4 @@ end TSS
 #print axioms TSS.polyEval_eq_eval
 #print axioms TSS.threshold_signature_verifies
 #print axioms TSS.aggregate_of_shares
+#print axioms TSS.unblind_correct
